@@ -47,6 +47,8 @@ type Config struct {
 	Client    litefs.Client // default: http client
 	HTTP      bool          // start the HTTP API server on 127.0.0.1:0
 	Tune      func(s *litefs.Store)
+	// PreOpen runs after the store is built but before Store.Open (install hooks).
+	PreOpen func(n *Node)
 }
 
 // Node is one LiteFS node: Store + FUSE file system (unmounted) + optional
@@ -59,6 +61,10 @@ type Node struct {
 	Server *lhttp.Server
 	OS     *OSWrap
 	Cache  *PageCache
+
+	hmu         sync.RWMutex
+	onPageWrite func(db *litefs.DB, pgno uint32, data []byte, invalidate bool)
+	onTruncate  func(db *litefs.DB, pageN uint32)
 
 	mu     sync.Mutex
 	exits  []ExitEvent
@@ -83,6 +89,10 @@ func NewNode(cfg Config) (*Node, error) {
 		st.Client = lhttp.NewClient()
 	}
 	n.Store = st
+	registerNode(n)
+	if cfg.PreOpen != nil {
+		cfg.PreOpen(n)
+	}
 	n.FS = lfuse.NewFileSystem(cfg.Dir+"-mnt", st)
 	n.FS.VerifAttachNullServer()
 	root, _ := n.FS.Root()
@@ -100,10 +110,12 @@ func NewNode(cfg Config) (*Node, error) {
 		}
 		n.Server.Serve()
 	}
-	if err := st.Open(); err != nil {
+	if err := n.call(func() error { return st.Open() }); err != nil {
 		if n.Server != nil {
 			_ = n.Server.Close()
 		}
+		st.Close()
+		unregisterNode(n)
 		return nil, err
 	}
 	return n, nil
@@ -163,6 +175,7 @@ func (n *Node) Close() {
 		_ = n.Server.Close()
 	}
 	_ = n.Store.Close()
+	unregisterNode(n)
 }
 
 // call runs a handler call the way bazil's server does: a panic is recovered
